@@ -1067,10 +1067,10 @@ def _monitor(case: dict, impl: dict) -> list[Violation]:
                                             f'{tag}: an upload of {path!r} to {uname(u)} was {what} although: {why}',
                                             case, observed=o['uploads'], required='no such upload'))
         elif k == 'cycle':
-            if not o['ran'] or not changed_since_cycle:
-                if o['ran']:
-                    pass
+            if not changed_since_cycle:
                 continue
+            # the settings / shares changed since the last cycle: every such change requests a cycle, so one ran now
+            # (if none was requested the uploads are judged all the same — nothing will ever reconcile them)
             changed_since_cycle = False
             before = {(a, p): (st, r) for a, p, st, r in o['before']}
             for a, p, st, r in o['uploads']:
